@@ -338,6 +338,80 @@ fn run_meta(f: &[&str]) -> String {
     format!("{}{flag}", evs.join(" "))
 }
 
+/// `loc <encoding> <hex text> <cuts>`: impl-only oracle through the PUBLIC API: `<p>` text `</p>` written in
+/// pieces, a text handler records `source_location()`; the ranges of the chunks of the text node must be
+/// contiguous and cover the text (C13/C14), and the text must be the whole-buffer decode.
+fn run_loc(f: &[&str]) -> String {
+    use lol_html::{HtmlRewriter, Settings, text};
+    use std::cell::RefCell;
+    use std::rc::Rc;
+    let [name, hex, cuts] = f else { return "bad-case".into() };
+    let (Some(enc), Some(text), Some(cuts)) = (find_enc(name), of_hex(hex), nat_list(cuts)) else {
+        return "bad-case".into();
+    };
+    if text.iter().any(|&b| b == b'<' || b == b'&' || b == 0 || b == b'\r') || text.is_empty() {
+        return "bad-case".into();
+    }
+    let mut doc = b"<p>".to_vec();
+    doc.extend_from_slice(&text);
+    doc.extend_from_slice(b"</p>");
+    let seen: Rc<RefCell<Vec<(String, bool, usize, usize)>>> = Rc::new(RefCell::new(vec![]));
+    {
+        let seen2 = seen.clone();
+        let mut rewriter = HtmlRewriter::new(
+            Settings::new()
+                .with_encoding(AsciiCompatibleEncoding::new(enc).unwrap())
+                .append_element_content_handler(text!("p", move |t| {
+                    let l = t.source_location().bytes();
+                    seen2.borrow_mut().push((t.as_str().to_owned(), t.last_in_text_node(), l.start, l.end));
+                    Ok(())
+                })),
+            |_: &[u8]| {},
+        );
+        for p in split_at_cuts(&doc, &cuts) {
+            rewriter.write(p).unwrap();
+        }
+        rewriter.end().unwrap();
+    }
+    let seen = seen.borrow();
+    let whole = enc.decode_without_bom_handling(&text).0.into_owned();
+    let cat: String = seen.iter().map(|c| c.0.as_str()).collect();
+    let mut flag = String::new();
+    if cat != whole {
+        flag = format!(" ||ORACLE:C13:public-decode-mismatch {name}");
+    } else if seen.iter().filter(|c| c.1).count() != 1 || !seen.last().is_some_and(|c| c.1) {
+        flag = format!(" ||ORACLE:C13:public-last-flag {name}");
+    } else {
+        let mut expect = 3;
+        for c in seen.iter() {
+            if c.2 != expect {
+                flag = format!(
+                    " ||ORACLE:C13:range-gap-public {name} chunk {} reported at {}..{}, previous chunk ended at {expect}",
+                    to_hex(c.0.as_bytes()), c.2, c.3
+                );
+                break;
+            }
+            expect = c.3;
+        }
+        if flag.is_empty() && expect != 3 + text.len() {
+            flag = format!(" ||ORACLE:C13:public-range-end {name}");
+        }
+    }
+    format!("impl-only{flag}")
+}
+
+/// `compat <label>`: is the encoding accepted at configuration time?
+fn run_compat(f: &[&str]) -> String {
+    let [label] = f else { return "bad-case".into() };
+    let Some(enc) = Encoding::for_label_no_replacement(label.as_bytes()) else { return "unknown".into() };
+    let accepted = AsciiCompatibleEncoding::new(enc).is_some();
+    let mut flag = String::new();
+    if accepted != enc.is_ascii_compatible() || (accepted && !ASCII_COMPATIBLE_ENCODINGS.contains(&enc)) {
+        flag = format!(" ||ORACLE:C13:compat {label}");
+    }
+    format!("{} {}{flag}", enc.name(), if accepted { "accepted" } else { "refused" })
+}
+
 pub fn run(line: &str) -> String {
     let f: Vec<&str> = line.split(' ').collect();
     match f.first() {
@@ -345,6 +419,8 @@ pub fn run(line: &str) -> String {
         Some(&"tenc") => run_tenc(&f[1..]),
         Some(&"resync") => run_resync(&f[1..]),
         Some(&"meta") => run_meta(&f[1..]),
+        Some(&"loc") => run_loc(&f[1..]),
+        Some(&"compat") => run_compat(&f[1..]),
         _ => "bad-case".into(),
     }
 }
